@@ -150,7 +150,7 @@ def sample_users(
         _log.warning(
             "cannot take %d disjoint samples of size %d from %d users", repeats, size, len(users)
         )
-        return crossfold_users(data, repeats, method)
+        return crossfold_users(data, repeats, method, test_only=test_only, rng=rng)
 
     _log.info("sampling %d users (n=%d)", len(users), size)
 
@@ -159,7 +159,7 @@ def sample_users(
 
     if repeats is None:
         test_us = rng.choice(users, size, replace=False)
-        return _make_split(data, rate_df, test_us, method)
+        return _make_split(data, rate_df, test_us, method, test_only=test_only)
 
     if disjoint:
         rng.shuffle(unums)
